@@ -229,4 +229,218 @@ theorem spec_parseDirectiveLocations (n : Nat) :
         exact List.contains_iff_mem.mpr this)))
   exact this.cast (by simp [p]) rfl
 
+/-! ### blocks `start item+ stop` whose items carry derivations -/
+
+/-- an item: under the guard `G`, the consumed tokens derive `item` with canonical form `f x` -/
+def PItem {α : Type} (item : NT) (f : α → List Tok) (G Q : α → Prop) (x : α) (u : List Token) : Prop :=
+  (G x → Derives gql (.nt item) (tk u) (f x)) ∧ Q x
+
+theorem many_derives {α : Type} {item : NT} {f : α → List Tok} {G Q : α → Prop} {xs : List α} {mid : List Token}
+    (h : Many (PItem item f G Q) xs mid) :
+    ((∀ x ∈ xs, G x) → Derives gql (.star (.nt item)) (tk mid) (xs.flatMap f)) ∧ ∀ x ∈ xs, Q x := by
+  induction h with
+  | nil => exact ⟨fun _ => Derives.starNil, fun _ h => by cases h⟩
+  | @cons x xs u us hx _ ih =>
+    refine ⟨fun hg => ?_, fun y hy => ?_⟩
+    · simp only [tk_append, List.flatMap_cons]
+      exact Derives.starCons (hx.1 (hg x (by simp))) (ih.1 fun y hy => hg y (by simp [hy]))
+    · rcases List.mem_cons.1 hy with rfl | hy
+      · exact hx.2
+      · exact ih.2 y hy
+
+/-- the result of `some` over such items: an optional block -/
+theorem bracketed_block {α : Type} {item : NT} {f : α → List Tok} {G Q : α → Prop} {start stop : Kind} {xs : List α}
+    {a a' : AS} (hv1 : start.valued = false) (hv2 : stop.valued = false)
+    (hb : Bracketed (PItem item f G Q) start stop xs a a') (hne : a.σ.head.kind = start → xs ≠ []) :
+    ∃ u, Ate a a' u ∧ (∀ x ∈ xs, Q x) ∧ (xs = [] → u = []) ∧
+      ((∀ x ∈ xs, G x) → xs ≠ [] →
+        Derives gql (.seq (Grammar.kind start) (.seq (.plus (.nt item)) (Grammar.kind stop))) (tk u)
+          (tP start :: xs.flatMap f ++ [tP stop])) := by
+  rcases hb with ⟨rfl, hk, rfl⟩ | ⟨hk, u, hu, t1, mid, t2, rfl, k1, k2, o1, o2, hm⟩
+  · exact ⟨[], Ate.peeked a, fun _ h => (by cases h), fun _ => rfl, fun _ h => absurd rfl h⟩
+  · obtain ⟨m1, m2⟩ := many_derives hm
+    refine ⟨_, hu, m2, fun h => absurd h (hne hk), fun hg hx => ?_⟩
+    have hs := m1 hg
+    have hmid : tk mid ≠ [] ∨ True := .inr trivial
+    cases hm with
+    | nil => exact absurd rfl hx
+    | @cons x xs u us hx' hrest =>
+      obtain ⟨r1, _⟩ := many_derives hrest
+      have hp := Derives.plus (hx'.1 (hg x (by simp))) (r1 fun y hy => hg y (by simp [hy]))
+      exact (Derives.seq (L.kind start) (Derives.seq hp (L.kind stop))).cast
+        (by simp [ofToken_punct k1 o1 hv1, ofToken_punct k2 o2 hv2]) (by simp)
+
+/-- … as an optional nonterminal whose rule is `start item+ stop` -/
+theorem block_optD {α : Type} {item : NT} {f : α → List Tok} {xs : List α} {start stop : Kind} {u : List Token} (nt : NT)
+    (hrule : gql.rules nt = .seq (Grammar.kind start) (.seq (.plus (.nt item)) (Grammar.kind stop)))
+    (h0 : xs = [] → u = [])
+    (h1 : xs ≠ [] → Derives gql (.seq (Grammar.kind start) (.seq (.plus (.nt item)) (Grammar.kind stop))) (tk u)
+      (tP start :: xs.flatMap f ++ [tP stop])) :
+    OptD nt (tk u) (if xs.isEmpty then [] else tP start :: xs.flatMap f ++ [tP stop]) (xs = []) := by
+  by_cases hx : xs = []
+  · subst hx
+    exact .inl ⟨rfl, by rw [h0 rfl]; rfl, rfl⟩
+  · refine .inr ⟨hx, ?_⟩
+    have : xs.isEmpty = false := by cases xs <;> simp_all
+    rw [this]
+    exact Derives.nt (by rw [hrule]; exact h1 hx)
+
+/-! ### input values, fields, enum values -/
+
+theorem derives_inputValue (desc : Bytes) (name : Name) (ty : GType) (dv : Option Value) (dirs : List Directive)
+    {tsD : List Tok} (hD : Derives gql (.opt (.nt .description)) tsD (printDesc desc))
+    (hdv : ∀ d, dv = some d → ConstValue d) (hdirs : ConstDirectives dirs) :
+    Derives gql (.nt .inputValueDefinition)
+      (tsD ++ tName name :: tP .colon :: (printType ty ++ (printDefault dv ++ printDirectives dirs)))
+      (printDesc desc ++ tName name :: tP .colon :: (printType ty ++ (printDefault dv ++ printDirectives dirs))) :=
+  Derives.nt (n := NT.inputValueDefinition) (Derives.seq hD (D.nameCons name (D.kindCons .colon
+    (Derives.seq (L_type ty) (Derives.seq (L_optDefault dv hdv) (L_optDirectives true dirs fun _ => hdirs))))))
+
+/-- an argument definition (InputValueDefinition) -/
+def PArgDef : ArgDef → List Token → Prop :=
+  PItem .inputValueDefinition printArgDef (fun _ => True) WFArgDef
+
+theorem spec_parseArgumentDef (n : Nat) : Spec (parseArgumentDef n) (Eats PArgDef) := by
+  unfold parseArgumentDef
+  refine (Spec.bind spec_peekPos fun pos => Spec.bind spec_parseDescription fun desc => Spec.bind spec_peek fun _ =>
+    Spec.bind spec_parseName fun name => Spec.bind (spec_punct .colon (by decide) (by decide) rfl) fun _ =>
+    Spec.bind (spec_parseTypeReference n) fun ty =>
+    Spec.bind (spec_skipP .equals (by decide) (by decide) rfl) fun b => Spec.ite
+      (fun _ => Spec.bind (spec_parseValueLiteral true n) fun v => Spec.bind (Spec.pure (Option.some v)) fun dv =>
+        Spec.bind (spec_parseDirectives n true) fun dirs => Spec.pure _)
+      (fun _ => Spec.bind (Spec.pure none) fun dv =>
+        Spec.bind (spec_parseDirectives n true) fun dirs => Spec.pure _)).mono ?_
+  rintro x a a'' _ ⟨pos, a1, ⟨rfl, _⟩, desc, a2, ⟨u0, h0, p0, _⟩, _, a2', ⟨_, rfl⟩, name, a3, ⟨u1, h1, p1⟩,
+    _, a4, ⟨u2, h2, p2⟩, ty, a5, ⟨u3, h3, p3⟩, b, a6, hs,
+    ⟨hb, v, a7, ⟨u4, h4, p4⟩, dv, a8, ⟨rfl, rfl⟩, dirs, a9, ⟨u5, h5, p5⟩, rfl, rfl⟩ |
+    ⟨hb, dv, a8, ⟨rfl, rfl⟩, dirs, a9, ⟨u5, h5, p5⟩, rfl, rfl⟩⟩
+  · rcases hs with ⟨_, _, ue, he, pe⟩ | ⟨rfl, _⟩
+    · have hdv : ∀ d, some v = some d → ConstValue d := fun d hd => by cases hd; exact p4.2 rfl
+      refine ⟨_, (Ate.peeked a).trans (h0.trans ((Ate.peeked a2).trans (h1.trans (h2.trans (h3.trans (he.trans (h4.trans h5))))))),
+        fun _ => ?_, hdv, p5.2 rfl⟩
+      exact (derives_inputValue desc name ty (some v) dirs p0 hdv (p5.2 rfl)).cast
+        (by simp [p1, p2, p3, pe, p4.1, p5.1, printDefault]) (by simp [printArgDef])
+    · simp at hb
+  · rcases hs with ⟨rfl, _⟩ | ⟨_, _, rfl⟩
+    · simp at hb
+    · have hdv : ∀ d, (none : Option Value) = some d → ConstValue d := fun d hd => by cases hd
+      refine ⟨_, (Ate.peeked a).trans (h0.trans ((Ate.peeked a2).trans (h1.trans (h2.trans (h3.trans ((Ate.peeked a5).trans h5)))))),
+        fun _ => ?_, hdv, p5.2 rfl⟩
+      exact (derives_inputValue desc name ty none dirs p0 hdv (p5.2 rfl)).cast
+        (by simp [p1, p2, p3, p5.1, printDefault]) (by simp [printArgDef])
+
+/-- `ArgumentsDefinition?` -/
+def PArgDefs (as : List ArgDef) (u : List Token) : Prop :=
+  OptD .argumentsDefinition (tk u) (printArgDefs as) (as = []) ∧ ∀ a ∈ as, WFArgDef a
+
+theorem spec_parseArgumentDefs (n : Nat) : Spec (parseArgumentDefs n) (Eats PArgDefs) := by
+  unfold parseArgumentDefs
+  refine (spec_pSome .parenL .parenR (by decide) (by decide) (by decide) (by decide) n (spec_parseArgumentDef n)).mono ?_
+  rintro as a a' _ ⟨hb, hne⟩
+  obtain ⟨u, h1, h2, h3, h4⟩ := bracketed_block rfl rfl hb hne
+  exact ⟨u, h1, block_optD .argumentsDefinition rfl h3 (h4 fun _ _ => trivial), h2⟩
+
+/-- an input field (InputValueDefinition of an input object) -/
+def PInputField : FieldDef → List Token → Prop :=
+  PItem .inputValueDefinition printInputField (fun _ => True) WFInputField
+
+theorem spec_parseInputValueDef (n : Nat) : Spec (parseInputValueDef n) (Eats PInputField) := by
+  unfold parseInputValueDef
+  refine (Spec.bind spec_peekPos fun pos => Spec.bind spec_parseDescription fun desc => Spec.bind spec_peek fun _ =>
+    Spec.bind spec_parseName fun name => Spec.bind (spec_punct .colon (by decide) (by decide) rfl) fun _ =>
+    Spec.bind (spec_parseTypeReference n) fun ty =>
+    Spec.bind (spec_skipP .equals (by decide) (by decide) rfl) fun b => Spec.ite
+      (fun _ => Spec.bind (spec_parseValueLiteral true n) fun v => Spec.bind (Spec.pure (Option.some v)) fun dv =>
+        Spec.bind (spec_parseDirectives n true) fun dirs => Spec.pure _)
+      (fun _ => Spec.bind (Spec.pure none) fun dv =>
+        Spec.bind (spec_parseDirectives n true) fun dirs => Spec.pure _)).mono ?_
+  rintro x a a'' _ ⟨pos, a1, ⟨rfl, _⟩, desc, a2, ⟨u0, h0, p0, _⟩, _, a2', ⟨_, rfl⟩, name, a3, ⟨u1, h1, p1⟩,
+    _, a4, ⟨u2, h2, p2⟩, ty, a5, ⟨u3, h3, p3⟩, b, a6, hs,
+    ⟨hb, v, a7, ⟨u4, h4, p4⟩, dv, a8, ⟨rfl, rfl⟩, dirs, a9, ⟨u5, h5, p5⟩, rfl, rfl⟩ |
+    ⟨hb, dv, a8, ⟨rfl, rfl⟩, dirs, a9, ⟨u5, h5, p5⟩, rfl, rfl⟩⟩
+  · rcases hs with ⟨_, _, ue, he, pe⟩ | ⟨rfl, _⟩
+    · have hdv : ∀ d, some v = some d → ConstValue d := fun d hd => by cases hd; exact p4.2 rfl
+      refine ⟨_, (Ate.peeked a).trans (h0.trans ((Ate.peeked a2).trans (h1.trans (h2.trans (h3.trans (he.trans (h4.trans h5))))))),
+        fun _ => ?_, hdv, p5.2 rfl⟩
+      exact (derives_inputValue desc name ty (some v) dirs p0 hdv (p5.2 rfl)).cast
+        (by simp [p1, p2, p3, pe, p4.1, p5.1, printDefault]) (by simp [printInputField])
+    · simp at hb
+  · rcases hs with ⟨rfl, _⟩ | ⟨_, _, rfl⟩
+    · simp at hb
+    · have hdv : ∀ d, (none : Option Value) = some d → ConstValue d := fun d hd => by cases hd
+      refine ⟨_, (Ate.peeked a).trans (h0.trans ((Ate.peeked a2).trans (h1.trans (h2.trans (h3.trans ((Ate.peeked a5).trans h5)))))),
+        fun _ => ?_, hdv, p5.2 rfl⟩
+      exact (derives_inputValue desc name ty none dirs p0 hdv (p5.2 rfl)).cast
+        (by simp [p1, p2, p3, p5.1, printDefault]) (by simp [printInputField])
+
+/-- `InputFieldsDefinition?` -/
+def PInputFields (fs : List FieldDef) (u : List Token) : Prop :=
+  OptD .inputFieldsDefinition (tk u) (printBlock printInputField fs) (fs = []) ∧ ∀ f ∈ fs, WFInputField f
+
+theorem spec_parseInputFieldsDefinition (n : Nat) : Spec (parseInputFieldsDefinition n) (Eats PInputFields) := by
+  unfold parseInputFieldsDefinition
+  refine (spec_pSome .braceL .braceR (by decide) (by decide) (by decide) (by decide) n (spec_parseInputValueDef n)).mono ?_
+  rintro fs a a' _ ⟨hb, hne⟩
+  obtain ⟨u, h1, h2, h3, h4⟩ := bracketed_block rfl rfl hb hne
+  exact ⟨u, h1, block_optD .inputFieldsDefinition rfl h3 (h4 fun _ _ => trivial), h2⟩
+
+/-- a field definition -/
+def PFieldDef : FieldDef → List Token → Prop :=
+  PItem .fieldDefinition printFieldDef (fun _ => True) WFFieldDef
+
+theorem spec_parseFieldDefinition (n : Nat) : Spec (parseFieldDefinition n) (Eats PFieldDef) := by
+  unfold parseFieldDefinition
+  refine (Spec.bind spec_peekPos fun pos => Spec.bind spec_parseDescription fun desc => Spec.bind spec_peek fun _ =>
+    Spec.bind spec_parseName fun name => Spec.bind (spec_parseArgumentDefs n) fun args =>
+    Spec.bind (spec_punct .colon (by decide) (by decide) rfl) fun _ =>
+    Spec.bind (spec_parseTypeReference n) fun ty =>
+    Spec.bind (spec_parseDirectives n true) fun dirs => Spec.pure _).mono ?_
+  rintro x a a'' _ ⟨pos, a1, ⟨rfl, _⟩, desc, a2, ⟨u0, h0, p0, _⟩, _, a2', ⟨_, rfl⟩, name, a3, ⟨u1, h1, p1⟩,
+    args, a4, ⟨u2, h2, p2⟩, _, a5, ⟨u3, h3, p3⟩, ty, a6, ⟨u4, h4, p4⟩, dirs, a7, ⟨u5, h5, p5⟩, rfl, rfl⟩
+  refine ⟨_, (Ate.peeked a).trans (h0.trans ((Ate.peeked a2).trans (h1.trans (h2.trans (h3.trans (h4.trans h5)))))),
+    fun _ => ?_, p2.2, p5.2 rfl⟩
+  have := Derives.nt (n := NT.fieldDefinition) (Derives.seq p0 (D.nameCons name (Derives.seq p2.1.opt
+    (D.kindCons .colon (Derives.seq (L_type ty) (L_optDirectives true dirs fun _ => p5.2 rfl))))))
+  exact this.cast (by simp [p1, p3, p4, p5.1]) (by simp [printFieldDef])
+
+/-- `FieldsDefinition?` -/
+def PFields (fs : List FieldDef) (u : List Token) : Prop :=
+  OptD .fieldsDefinition (tk u) (printBlock printFieldDef fs) (fs = []) ∧ ∀ f ∈ fs, WFFieldDef f
+
+theorem spec_parseFieldsDefinition (n : Nat) : Spec (parseFieldsDefinition n) (Eats PFields) := by
+  unfold parseFieldsDefinition
+  refine (spec_pSome .braceL .braceR (by decide) (by decide) (by decide) (by decide) n (spec_parseFieldDefinition n)).mono ?_
+  rintro fs a a' _ ⟨hb, hne⟩
+  obtain ⟨u, h1, h2, h3, h4⟩ := bracketed_block rfl rfl hb hne
+  exact ⟨u, h1, block_optD .fieldsDefinition rfl h3 (h4 fun _ _ => trivial), h2⟩
+
+/-- an enum value definition; the parser takes any Name, the grammar excludes `true`, `false`,
+    `null`, so the derivation is conditional -/
+def PEnumVal : EnumValDef → List Token → Prop :=
+  PItem .enumValueDefinition printEnumVal (fun e => notLiteralName e.name) (fun e => ConstDirectives e.dirs)
+
+theorem spec_parseEnumValueDefinition (n : Nat) : Spec (parseEnumValueDefinition n) (Eats PEnumVal) := by
+  unfold parseEnumValueDefinition
+  refine (Spec.bind spec_peekPos fun pos => Spec.bind spec_parseDescription fun desc => Spec.bind spec_peek fun _ =>
+    Spec.bind spec_parseName fun name => Spec.bind (spec_parseDirectives n true) fun dirs => Spec.pure _).mono ?_
+  rintro x a a'' _ ⟨pos, a1, ⟨rfl, _⟩, desc, a2, ⟨u0, h0, p0, _⟩, _, a2', ⟨_, rfl⟩, name, a3, ⟨u1, h1, p1⟩,
+    dirs, a4, ⟨u2, h2, p2⟩, rfl, rfl⟩
+  refine ⟨_, (Ate.peeked a).trans (h0.trans ((Ate.peeked a2).trans (h1.trans h2))), fun hg => ?_, p2.2 rfl⟩
+  obtain ⟨g1, g2, g3⟩ := hg
+  have hv : L (.nt .enumValue) [tName name] := L.nt (L.tok (by simp [tName, g1, g2, g3]))
+  have := Derives.nt (n := NT.enumValueDefinition) (Derives.seq p0 (Derives.seq hv (L_optDirectives true dirs fun _ => p2.2 rfl)))
+  exact this.cast (by simp [p1, p2.1]) (by simp [printEnumVal])
+
+/-- `EnumValuesDefinition?` -/
+def PEnumVals (es : List EnumValDef) (u : List Token) : Prop :=
+  ((∀ e ∈ es, notLiteralName e.name) → OptD .enumValuesDefinition (tk u) (printBlock printEnumVal es) (es = [])) ∧
+    (es = [] → u = []) ∧ ∀ e ∈ es, ConstDirectives e.dirs
+
+theorem spec_parseEnumValuesDefinition (n : Nat) : Spec (parseEnumValuesDefinition n) (Eats PEnumVals) := by
+  unfold parseEnumValuesDefinition
+  refine (spec_pSome .braceL .braceR (by decide) (by decide) (by decide) (by decide) n (spec_parseEnumValueDefinition n)).mono ?_
+  rintro es a a' _ ⟨hb, hne⟩
+  obtain ⟨u, h1, h2, h3, h4⟩ := bracketed_block rfl rfl hb hne
+  exact ⟨u, h1, fun hg => block_optD .enumValuesDefinition rfl h3 (h4 hg), h3, h2⟩
+
 end Gql.Parser
